@@ -44,6 +44,12 @@
 //!    clone / pack / run one instruction from a copy of it); reports what the snapshot restores into a fresh
 //!    register file before ("pre") and after ("post") the observation, likewise for the operand slot
 //!    ("opre"/"opost").  An empty slot yields null.
+//! Round 5 additions (lifecycle verbs; names across the snapshot boundary):
+//!  * ["reset"]  `LlamaState::reset()` on the CURRENT register file (both of them), which goes on being used;
+//!    reports read-all right after it.
+//!  * ["load", {NAME: v, ..}]  a snapshot map built from the given names (the 8 full registers / TEMPn), applied with
+//!    `apply_registers` to a fresh `LlamaState`, which replaces the current one; reports read-all.
+//!  * ["collect"] now reports {"collect": {st, rt}, "reads": read-all} so the map can be held against the reads.
 //!  verb "template": save a snapshot of a brand-new runtime whose registers were set from the request (the valid
 //!  archive the Python side derives the bad files from).
 use crate::cpu::{canon, HashBus};
@@ -395,6 +401,31 @@ fn run_seq(
                 out.push(json!([st.get_reg(reg_of(name).unwrap()), rt.get_flag(name) as u32]));
             }
             "all" => out.push(read_all(&st, rt)),
+            "reset" => {
+                // the register file's own lifecycle verb: the SAME object goes on being used afterwards
+                st.reset();
+                rt.state.reset();
+                out.push(read_all(&st, rt));
+            }
+            "load" => {
+                // a snapshot built from explicit named values (not collected from a register file) is applied
+                // to a fresh register file, which replaces the current one
+                let obj = arr.get(1).and_then(|v| v.as_object()).ok_or("load values")?;
+                let mut regs: HashMap<String, u32> = HashMap::new();
+                for (k, v) in obj.iter() {
+                    if !NAMES.contains(&k.as_str()) {
+                        return Err(format!("load: {k} is no snapshot register"));
+                    }
+                    regs.insert(k.clone(), v.as_u64().ok_or("load value")? as u32);
+                }
+                let mut fresh_st = LlamaState::new();
+                apply_registers(&mut fresh_st, &regs);
+                let mut fresh_rt = LlamaState::new();
+                apply_registers(&mut fresh_rt, &regs);
+                st = fresh_st;
+                rt.state = fresh_rt;
+                out.push(read_all(&st, rt));
+            }
             "rt" | "rtb" => {
                 let before = read_all(&st, rt);
                 let (fresh_st, blob) = roundtrip(&st, verb == "rtb")?;
@@ -536,8 +567,9 @@ fn run_seq(
             }
             "host" => out.push(Value::Null),
             "collect" => {
-                out.push(json!({"st": map_to_json(&collect_registers(&st)),
-                                "rt": map_to_json(&collect_registers(&rt.state))}));
+                out.push(json!({"collect": {"st": map_to_json(&collect_registers(&st)),
+                                            "rt": map_to_json(&collect_registers(&rt.state))},
+                                "reads": read_all(&st, rt)}));
             }
             other => return Err(format!("unknown op {other}")),
         }
